@@ -16,7 +16,7 @@ LEVEL = 'exploration'
 ENGINE = 'vsched'
 RULE = ('Domain 1 (timeouts, virtual time): one phase under test with duration d and timeout t on a grid around each other and '
         'around the 3 s join poll (d in {0, t-eps, t+eps, t+1, t+3-eps, t+3+eps, never returns}, t in {0.5, 3, 5, default 180, default set through --phase_default_timeout_s}) x body '
-        'kind {returns, sleeps killable, swallows the termination error and keeps running, does late work after being abandoned: '
+        'kind {returns, sleeps killable, swallows the termination error and keeps running, hangs with a partially set dimensioned measurement whose validator raises, does late work after being abandoned: '
         'sets its measurement, attaches, logs, returns FAIL} x position {alone, group main with teardown, group setup, group '
         'teardown} x repeat_on_timeout; the whole grid is enumerated and every case is also run under every single preemption of '
         'a line-level schedule (sampled shards in the quick tier).  Oracle: d < t => never TIMEOUT and the body\'s own result is '
@@ -77,6 +77,12 @@ def timeout_case(case):
           test.logger.info('working')
         s.sleep(1e7)
         return None
+      if kind == 'partial-dim':
+        # sets one point of a dimensioned measurement whose validator raises on incomplete data, then hangs: the
+        # end-of-phase validation of the abandoned phase raises while its record is finalized
+        test.measurements.dm[0] = 1
+        s.sleep(1e7)
+        return None
       if kind == 'rot-recovers':
         # repeat_on_timeout: the first invocation never returns (it is abandoned at its deadline), the second is quick
         if inv == 0:
@@ -118,7 +124,10 @@ def timeout_case(case):
     if case.get('rot') or kind == 'rot-recovers':
       opts['repeat_on_timeout'] = True
       opts['repeat_limit'] = 2
-    put = htf.PhaseOptions(**opts)(htf.measures(htf.Measurement('pm').in_range(0, 10))(htf.plug(plug=P)(body)))
+    decl = [htf.Measurement('pm').in_range(0, 10)]
+    if kind == 'partial-dim':
+      decl = [htf.Measurement('dm').with_dimensions('x').with_validator(lambda rows: rows[2][-1] < 10)]
+    put = htf.PhaseOptions(**opts)(htf.measures(*decl)(htf.plug(plug=P)(body)))
 
     @htf.PhaseOptions(timeout_s=180.0)   # its own: the default may have been lowered through the flag
     @htf.measures(htf.Measurement('tm').in_range(0, 10))
@@ -259,6 +268,8 @@ def timeout_grid():
     if t in (0.5, 3.0):
       for pos in ('alone', 'main'):
         yield {'t': t, 'd': 'inf', 'kind': 'notifying', 'pos': pos, 'rot': False}
+      for pos in ('alone', 'main', 'setup', 'teardown'):
+        yield {'t': t, 'd': 'inf', 'kind': 'partial-dim', 'pos': pos, 'rot': False}
     for frac in (0.3, 0.4, 0.6, 0.9):
       for pos in ('alone', 'main', 'setup', 'teardown'):
         yield {'t': t, 'd': round(tt * frac, 4), 'kind': 'repeats', 'pos': pos, 'rot': False}
